@@ -1957,50 +1957,36 @@ void vm_get_slice_range(
         return;
     }
 
+    /* the composed bounds are computed in 64 bits: range1_from + range2_to can
+     * exceed int, and a wrapped sum passed the far-end test */
+    long long from = 0;
+    long long to = 0;
+
     if (range1_from < range1_to)
     {
-        *res_from = range1_from + range2_from;
-        *res_to = range1_from + range2_to;
+        from = (long long)range1_from + range2_from;
+        to = (long long)range1_from + range2_to;
 
-        if (range2_from < range2_to)
+        if ((range2_from < range2_to ? to : from) > range1_to)
         {
-            if (*res_to > range1_to)
-            {
-                *oob = 1;
-                return;
-            }
-        }
-        else
-        {
-            if (*res_from > range1_to)
-            {
-                *oob = 1;
-                return;
-            }
+            *oob = 1;
+            return;
         }
     }
     else
     {
-        *res_from = range1_from - range2_from;
-        *res_to = range1_from - range2_to;
+        from = (long long)range1_from - range2_from;
+        to = (long long)range1_from - range2_to;
 
-        if (range2_from < range2_to)
+        if ((range2_from < range2_to ? to : from) < range1_to)
         {
-            if (*res_to < range1_to)
-            {
-                *oob = 1;
-                return;
-            }
-        }
-        else
-        {
-            if (*res_from < range1_to)
-            {
-                *oob = 1;
-                return;
-            }
+            *oob = 1;
+            return;
         }
     }
+
+    *res_from = (int)from;
+    *res_to = (int)to;
 }
 
 void vm_execute_slice_array(vm * machine, bytecode * code)
